@@ -6,6 +6,7 @@ import (
 	"reflect"
 	"sort"
 	"strings"
+	"sync"
 	"testing"
 
 	"pgregory.net/rapid"
@@ -207,6 +208,31 @@ func checkC02(t core.TB, rec *core.Recorder, env *gen.Env, all *core.Set, p *cor
 			}
 		}
 	}
+	// goroutine timing as adversary: independent fresh hand-written sets analyse the same package
+	// at the same time (what parallel go/analysis passes do); each must equal the sequential result
+	if p2.OK() {
+		const par = 4
+		res := make([][]map[string][]cmpDiag, par)
+		var wg sync.WaitGroup
+		for g := 0; g < par; g++ {
+			wg.Add(1)
+			go func(g int) {
+				defer wg.Done()
+				defer func() { recover() }()
+				if hw, err := core.NewSet(env.Fset, core.HandWritten()); err == nil {
+					res[g] = runOn(hw, p2)
+				}
+			}(g)
+		}
+		wg.Wait()
+		for g := 0; g < par; g++ {
+			if res[g] != nil {
+				runs = append(runs, run{fmt.Sprintf("fresh hand-written set (parallel #%d)", g), res[g]})
+			} else {
+				rec.Violation(t, "C02|parallel|crash", "a fresh checker set analysing in parallel with others crashed", pc)
+			}
+		}
+	}
 	names2 := checkerNames(linter.GetCheckersInfo())
 	if !reflect.DeepEqual(names1, names2) {
 		rec.Violation(t, "C02|registry|order", "GetCheckersInfo returned a different order on a second call", pc)
@@ -226,7 +252,7 @@ func checkC02(t core.TB, rec *core.Recorder, env *gen.Env, all *core.Set, p *cor
 			for name, want := range base.res[fi] {
 				got, ok := r.res[fi][name]
 				if !ok {
-					if r.label == "fresh hand-written set" {
+					if strings.HasPrefix(r.label, "fresh hand-written set") {
 						continue
 					}
 					got = nil
